@@ -110,6 +110,17 @@ fn with_line(p: &Prog, idx: usize, line: String) -> Prog {
     q
 }
 
+/// rules (block, index) that survive the reference matcher for instruction item `idx`
+fn ref_survivors(p: &Prog, idx: usize) -> Vec<(usize, usize)> {
+    let Item::Instr(line) = &p.items[idx] else { return vec![] };
+    let defs: Vec<RDef> = p.ruledefs.iter().map(|d| RDef { name: d.name.clone(), sub: d.sub, rules: d.rules.iter().filter_map(|r| parse_rule(r).ok()).collect() }).collect();
+    let mut m = Matcher { defs: &defs, unmodelled: None, lax_match_seen: false };
+    let mut v: Vec<(usize, usize)> = m.match_line(line).iter().map(|x| (x.def, x.rule)).collect();
+    v.sort();
+    v.dedup();
+    v
+}
+
 fn compare(base_src: &str, base_out: &(String, String), variant: &Prog, what: &str, family: &str, l: &mut Local) {
     let src = variant.render();
     if src == base_src {
@@ -187,15 +198,31 @@ fn judge(b: &Base, thorough: bool, l: &mut Local) {
             compare(&base_src, &base_out, &v, "letter-case-of-rule-text", b.family, l);
         }
     }
-    // 3. blanks / tabs / comments at token boundaries, one boundary at a time and all at once
-    let bs = boundaries(&line);
+    // 3. blanks / tabs / comments at token boundaries, one boundary at a time and all at once.
+    //    Only for lines that already carry every blank the patterns require: a line that matches no
+    //    rule may legitimately start to match when a blank is added where a pattern demands one
+    //    (`ld a,0` against `ld {r}, {x}`), which is not an *additional* blank in the property's sense.
+    let no_match_base = matches!(&r, RefOut::Error(e) if e.starts_with("no match"));
+    let bs = if no_match_base { vec![] } else { boundaries(&line) };
+    // A blank is *additional* only if no pattern needed it: when the set of rules the reference matcher
+    // lets survive changes (a blank supplied where some rule's pattern requires one), the rendering is
+    // outside the property and carries no verdict.
+    let base_surv = ref_survivors(&b.prog, b.instr);
     for ins in INSERTS {
         for p in &bs {
             let v = with_line(&b.prog, b.instr, insert_at(&line, &[*p], ins));
+            if ref_survivors(&v, b.instr) != base_surv {
+                l.unspecified += 1;
+                continue;
+            }
             compare(&base_src, &base_out, &v, "extra-blank-at-token-boundary", b.family, l);
         }
         if bs.len() > 1 {
             let v = with_line(&b.prog, b.instr, insert_at(&line, &bs, ins));
+            if ref_survivors(&v, b.instr) != base_surv {
+                l.unspecified += 1;
+                continue;
+            }
             compare(&base_src, &base_out, &v, "extra-blank-at-every-token-boundary", b.family, l);
         }
     }
